@@ -71,6 +71,13 @@ def observe(cls, c, dyn, want):
             dr = ds.get("dependentRequired", {})
             exp = [[want[0], [want[1]]]] + ([[want[1], [want[0]]]] if c.get("group") else [])
             views["dependentRequired"] = (sorted([k, sorted(v)] for k, v in dr.items()), sorted(exp))
+        if c["dep"]:
+            # the rule is enforced on the external names: requiring key present, required key absent
+            d = {k: i for i, k in enumerate(want) if k != want[1]}
+            try: deserialize(cls, d, aliaser=dyn); views["dependent_required.enforced"] = ("ACCEPTED", [[want[1]], [want[0]]])
+            except ValidationError as e:
+                got = sorted([x["loc"], re.findall(r"'([^']*)'", x["err"])] for x in e.errors)
+                views["dependent_required.enforced"] = (got, [[[want[1]], [want[0]]]])
         back = deserialize(cls, {k: i for i, k in enumerate(want)}, aliaser=dyn)
         views["deserialize.accepts"] = want if back == obj else "WRONG VALUE"
         try: deserialize(cls, {k: "x" for k in want}, aliaser=dyn); views["error.loc"] = "ACCEPTED"
@@ -137,7 +144,6 @@ def run(prop, seed, budget, ctx):
 
 KF = {
     # dependentRequired keys / values are plain str: a dynamic aliaser renames `properties` but not `dependentRequired`
-    "KF23": lambda c: set(c["bad_views"]) == {"dependentRequired"} and c["aliaser"] != "identity",
 }
 
 
